@@ -3,6 +3,7 @@ package main
 import (
 	"fmt"
 	"go/ast"
+	"go/token"
 	"go/types"
 	"sort"
 	"strings"
@@ -480,4 +481,121 @@ func ruleFieldListPersistent(c *Ctx) {
 		})
 	}
 	c.stat("buffer_writes_in_field_package", n)
+}
+
+// R5.render-unconditional
+func init() {
+	register(&Rule{ID: "R5.render-unconditional", Props: []string{"C05", "C10"}, Floor: 1,
+		Text: "an event that fenceMatch has classified is rendered whatever the fence's scan writer has been through: the writer of a hook, channel or live fence lives as long as the fence and is shared by all its events, so nothing it accumulated (items counted, the limit once reached) may suppress a later event. In the function writeObject hands the object to (found by role: the scanWriter method it calls before it looks at sw.filled), evaluated in the scenario of the fence path — the object is not tested again (noTest) and the output is not a count — every path to a return passes through the append to sw.filled (must-pass-through on go/cfg under the scenario); R5.detect-table assumes exactly this when it takes the rendered text to be non-empty",
+		Run:  ruleRenderUnconditional})
+}
+
+func ruleRenderUnconditional(c *Ctx) {
+	wo := c.Func("internal/server", "scanWriter", "writeObject")
+	filled := c.Field("internal/server", "scanWriter", "filled")
+	if wo == nil || wo.Decl.Body == nil || filled == nil {
+		c.und("anchors", 0, "scanWriter.writeObject or scanWriter.filled not found")
+		return
+	}
+	// the callee that fills: a scanWriter method called by writeObject with its parameter
+	var push *FuncInfo
+	ast.Inspect(wo.Decl.Body, func(n ast.Node) bool {
+		call, ok := n.(*ast.CallExpr)
+		if !ok || push != nil {
+			return true
+		}
+		f := callee(wo.Info(), call)
+		if f == nil || !isMethod(f, modPath+"/internal/server", "scanWriter", f.Name()) {
+			return true
+		}
+		fi := c.FuncOf(f)
+		if fi == nil || fi.Decl.Body == nil {
+			return true
+		}
+		// it appends to sw.filled
+		grows := false
+		ast.Inspect(fi.Decl.Body, func(m ast.Node) bool {
+			if as, ok := m.(*ast.AssignStmt); ok {
+				for _, l := range as.Lhs {
+					if selField(fi.Info(), l) == filled {
+						grows = true
+					}
+				}
+			}
+			return true
+		})
+		if grows {
+			push = fi
+		}
+		return true
+	})
+	if push == nil {
+		c.und("filler", wo.Decl.Pos(), "writeObject calls no scanWriter method that appends to sw.filled")
+		return
+	}
+	info := push.Info()
+	fg := newFlowGraph(info, push.Decl.Body)
+	isFill := func(n ast.Node) bool {
+		hit := false
+		inspectNoLit(n, func(m ast.Node) bool {
+			if as, ok := m.(*ast.AssignStmt); ok {
+				for i, l := range as.Lhs {
+					if selField(info, l) == filled && i < len(as.Rhs) {
+						if call, ok := ast.Unparen(as.Rhs[i]).(*ast.CallExpr); ok {
+							if id, ok := ast.Unparen(call.Fun).(*ast.Ident); ok && id.Name == "append" {
+								hit = true
+							}
+						}
+					}
+				}
+			}
+			return true
+		})
+		return hit
+	}
+	nAtoms := 0
+	sc := atomsOnly(func(info *types.Info, body ast.Node) func(e ast.Expr) byte {
+		return func(e ast.Expr) byte {
+			e = ast.Unparen(e)
+			if se, ok := e.(*ast.SelectorExpr); ok && se.Sel.Name == "noTest" {
+				if fv := selField(info, se); fv != nil {
+					nAtoms++
+					return '1'
+				}
+			}
+			if be, ok := e.(*ast.BinaryExpr); ok && (be.Op == token.EQL || be.Op == token.NEQ) {
+				for _, side := range [][2]ast.Expr{{be.X, be.Y}, {be.Y, be.X}} {
+					if fv := selField(info, side[0]); fv != nil && fv.Name() == "output" {
+						if id, ok := ast.Unparen(side[1]).(*ast.Ident); ok && id.Name == "outputCount" {
+							nAtoms++
+							if be.Op == token.EQL {
+								return '0'
+							}
+							return '1'
+						}
+					}
+				}
+			}
+			return '?'
+		}
+	})
+	// the two conditions of the scenario occur in the function at all (wherever the search stops)
+	probe := sc.Atom(fg)
+	ast.Inspect(push.Decl.Body, func(n ast.Node) bool {
+		if e, ok := n.(ast.Expr); ok {
+			probe(e)
+		}
+		return true
+	})
+	skip, w := c.scenReach(fg, push.Decl.Body, sc, Loc{}, func(l Loc) bool {
+		_, ok := l.Node.(*ast.ReturnStmt)
+		return ok
+	}, func(l Loc) bool { return isFill(l.Block.Nodes[l.Idx]) })
+	if nAtoms == 0 {
+		c.und(funcName(push.Obj), push.Decl.Pos(), "neither the noTest flag nor the count output is consulted: the fence path through this function is not recognised")
+		return
+	}
+	c.checkPath(!skip, funcName(push.Obj)+"→sw.filled", push.Decl.Pos(), w,
+		"for an object that is not tested again and an output that is not a count, every return is preceded by the append to sw.filled",
+		"the function can return without handing the object to sw.filled although the fence has already classified the event (noTest) — depending on what the long-lived writer of the fence accumulated from earlier events, a later event is rendered as nothing and fenceMatch drops it: the fence goes silent")
 }
